@@ -37,7 +37,7 @@ theorem C16_get_errors (env : Env) (st : Store) (d n a : String) :
     (∀ r, aget (d, n) st = some r → env.svcMethod d a = false →
       (a ∈ VIRTUAL → stateGet env st [d, n, a] = .attr (virtVal (d, n) a)) ∧
       (a ∉ VIRTUAL → ∀ v, aget a r.attrs = some v → stateGet env st [d, n, a] = .attr v) ∧
-      (a ∉ VIRTUAL → aget a r.attrs = none → STATE_CALLABLE_ATTRS.contains a = false →
+      (a ∉ VIRTUAL → aget a r.attrs = none → methodAttr a = false →
         stateGet env st [d, n, a] = .exc "AttributeError")) := by
   refine ⟨fun h => by simp [stateGet, h], fun r h hs => ?_⟩
   have hv := mkSnap_view (d, n) r a
@@ -203,6 +203,19 @@ theorem C16_names_nodup (fx : Fixes) (env : Env) (ops : List Op) (ms : MState) (
         · split
           · exact h
           · exact keys_nodup_aset _ _ _ h
+    have hstore : ∀ parts a, ((storeDotted fx env ms.store parts a).1.map (·.1)).Nodup := by
+      intro parts a
+      rcases parts with _ | ⟨d, _ | ⟨n, r⟩⟩ <;> simp only [storeDotted] <;> try exact h
+      split
+      · exact h
+      · split
+        · exact hset _ _ _ _
+        · split
+          · cases a
+            · exact hsa _ _
+            · exact hsa _ _
+            · exact hsa _ _
+          · exact h
     cases op with
     | load parts => simp only [step]; cases loadDotted env ms.store parts <;> exact h
     | get parts => simp only [step]; cases stateGet env ms.store parts <;> exact h
@@ -210,19 +223,13 @@ theorem C16_names_nodup (fx : Fixes) (env : Env) (ops : List Op) (ms : MState) (
       simp only [step]
       cases resolveArg ms.snaps v with
       | none => exact h
-      | some a =>
-        simp only [withStore]
-        rcases parts with _ | ⟨d, _ | ⟨n, r⟩⟩ <;> simp only [storeDotted] <;> try exact h
-        split
-        · exact h
-        · split
-          · exact hset _ _ _ _
-          · split
-            · cases a
-              · exact hsa _ _
-              · exact hsa _ _
-              · exact h
-            · exact h
+      | some a => exact hstore _ _
+    | aug parts sfx =>
+      simp only [step, withStore]
+      rcases parts with _ | ⟨d, _ | ⟨n, _ | ⟨x, r⟩⟩⟩ <;> simp only [augDotted] <;> try exact h
+      split
+      · exact h
+      · split <;> first | exact h | exact hstore _ _
     | delStmt parts =>
       simp only [step, withStore]
       rcases parts with _ | ⟨d, _ | ⟨n, r⟩⟩ <;> simp only [delDotted] <;> try exact h
